@@ -91,6 +91,25 @@ impl Buildpack for Vbp {
             "target": target_json(&c.target), "env": env_json(&c.platform), "descriptor": desc_json(&c.buildpack_descriptor),
             "plan": plan, "store": c.store.as_ref().map(|s| table_to_tagged(&s.metadata))}));
         let _ = to_tagged;
+        // scripted layer work through the real layer APIs (events in the vocabulary of Layers.tla)
+        if let Some(steps) = self.script["layer_steps"].as_u64() {
+            use verif_harness::layers_gen::Gen;
+            let g = Gen::new(&PathBuf::from(self.script["exec_src"].as_str().expect("exec_src")));
+            let ctx2 = verif_harness::layers::build_context(&c.layers_dir);
+            let mut r = fastrand::Rng::with_seed(self.script["layer_seed"].as_u64().unwrap_or(1));
+            let mut refs = std::collections::BTreeMap::new();
+            let mut f = std::fs::OpenOptions::new().create(true).append(true).open(self.out.join("events.ndjson")).unwrap();
+            let mut done = 0;
+            let mut tries = 0;
+            while done < steps && tries < steps * 4 {
+                tries += 1;
+                if let Some(o) = g.step(&mut r, &ctx2, &mut refs) {
+                    let (l, rf) = g.snapshot(&c.layers_dir, &refs);
+                    writeln!(f, "{}", json!({"obs": o, "L": l, "refs": rf})).unwrap();
+                    done += 1;
+                }
+            }
+        }
         match self.script["berror"].as_str().unwrap_or("none") {
             "buildpack" => return Err(libcnb::Error::BuildpackError(VErr("scripted build error".into()))),
             "layer" => {
@@ -126,6 +145,7 @@ impl Buildpack for Vbp {
         if self.script["storeout"] == "yes" {
             let mut t = toml::Table::new();
             t.insert("written-by".into(), toml::Value::String("vbp".into()));
+            if let Some(n) = self.script["store_counter"].as_i64() { t.insert("build-number".into(), toml::Value::Integer(n)); }
             for (i, k) in ["zulu", "alpha", "mike", "bravo", "yankee", "charlie"].iter().enumerate() {
                 let mut inner = toml::Table::new();
                 for kk in ["x-ray", "delta", "omega"] { inner.insert(kk.into(), toml::Value::Integer(i as i64)); }
